@@ -24,7 +24,10 @@ func init() {
 			"C09.5 no reachable function returns with a lock held; " +
 			"C09.6 Client.HandleInbound never returns (false, non-nil error); " +
 			"C09.7 Server.readLoop leaves its loop only on a read error; a handler error does not; " +
-			"C09.8 no single-value type assertion and no explicit panic() is reachable.",
+			"C09.8 no single-value type assertion and no explicit panic() is reachable; " +
+			"C09.9 results of accessors that can be nil (GetAllocation, GetChannelByNumber, FindAddrByChannelNumber, …) are not dereferenced on a path that has not tested them; " +
+			"C09.10 no function with an interface result returns a nil pointer of a concrete type boxed into it (the caller's != nil test would pass and the first method call crash); " +
+			"make([]T, n, c) with an input-dependent n has 0 ≤ n ≤ c.",
 		NotCovered: "totality of pion/stun's decoder (outside the module), nil dereferences in general, CPU/memory exhaustion, the liveness probe itself.",
 		Run:        runC09,
 	})
